@@ -120,6 +120,22 @@ def run(prop, tier, seed, work):
     res.extra["decoder_model"] = model
     if not quick:
         scen.extend(random_inputs(prop, defs, types, rng, 150000))
+    # Go's coverage-guided fuzzer as one more INPUT SOURCE (never a judge): seeded with the well-formed
+    # messages, it leaves a corpus of inputs that reach new code paths of the decoder; every one of them
+    # is then executed by the driver and judged by the trace specification like any other input
+    fz, finfo = ([], {"skipped": "thorough tier only"}) if quick else \
+        fuzz_inputs(work, defs, [(c["w"], msgs[c["cid"]][0]) for c in cases if msgs[c["cid"]]], 240)
+    res.extra["go_fuzz"] = finfo
+    steps = []
+    for (ty, m) in fz:
+        key = (ty, bytes(m))
+        if key in seen or ty not in types + ["Leaf"]:
+            continue
+        seen.add(key)
+        steps.append({"op": "decode", "ty": ty, "in": m, "dest": "fresh", "guard": True})
+    for i in range(0, len(steps), 200):
+        sid = "C05-gofuzz-%d" % i
+        scen.append({"sid": sid, "prop": prop, "vals": [], "steps": steps[i:i + 200], "tags": ["go-fuzz"], "dkey": sid})
     res.extra["inputs"] = len(seen)
     batches = [Batch("mutations", defs, scen)]
     suite.run_batches(res, work, batches)
@@ -158,3 +174,54 @@ def random_inputs(prop, defs, types, rng, n):
             scen.append({"sid": sid, "prop": prop, "vals": [], "steps": steps, "tags": ["random"], "dkey": sid})
             steps = []
     return scen
+
+
+def fuzz_inputs(work, defs, seeds, seconds):
+    """run `go test -fuzz FuzzDecode` (harness/driver/fuzz_test.go) for a while and return the corpus it
+    found as (type, message) pairs.  A fuzzer that cannot run is reported in the evidence, not an error."""
+    import ast
+    import glob
+    import json
+    import os
+    import subprocess
+    binp, defs_path = vlib.build_driver(work, defs)
+    d = os.path.dirname(binp)
+    names = sorted(defs.keys())
+    seedfile = os.path.join(d, "fuzzseeds.json")
+    sl = []
+    for (ty, m) in seeds[:400]:
+        if ty in names and len(m) < 4000:
+            sl.append([names.index(ty)] + list(m))
+    json.dump(sl, open(seedfile, "w"))
+    cache = os.path.join(d, "fuzzcache")
+    env = dict(vlib.GOENV, VERIF_DEFS=defs_path, VERIF_FUZZ_SEEDS=seedfile)
+    cmd = ["go", "test", "-tags", "verif", "-vet=off", "./driver", "-run", "^$", "-fuzz", "^FuzzDecode$", "-fuzztime", "%ds" % seconds,
+           "-test.fuzzcachedir=" + cache]
+    info = {"seconds": seconds, "seeds": len(sl)}
+    try:
+        p = subprocess.run(cmd, cwd=d, env=env, stdout=subprocess.PIPE, stderr=subprocess.STDOUT, text=True, timeout=seconds + 600)
+        info["exit"] = p.returncode
+        tail = [ln for ln in p.stdout.splitlines() if ln.startswith("fuzz:")]
+        info["last_status"] = tail[-1] if tail else p.stdout[-300:]
+    except subprocess.TimeoutExpired:
+        info["exit"] = "timeout"
+    out = []
+    files = glob.glob(os.path.join(cache, "**", "FuzzDecode", "*"), recursive=True) + \
+        glob.glob(os.path.join(d, "driver", "testdata", "fuzz", "FuzzDecode", "*"))
+    for f in files:
+        try:
+            lines = open(f).read().splitlines()
+            if not lines or not lines[0].startswith("go test fuzz v1"):
+                continue
+            lit = lines[1].strip()
+            if not lit.startswith("[]byte(") or not lit.endswith(")"):
+                continue
+            body = lit[len("[]byte("):-1]
+            # a Go interpreted string literal; its escapes (\xNN, \n, \", ...) are valid Python bytes escapes
+            data = ast.literal_eval("b" + body)
+        except Exception:
+            continue
+        if len(data) >= 1:
+            out.append((names[data[0] % len(names)], list(data[1:])))
+    info["corpus"] = len(out)
+    return out, info
